@@ -55,6 +55,13 @@ def run(chk, args):
         chk.sample(c)
     s = vlib.drive_cases(chk, drv, ["run"], cases, [chk.seed], tag="msg")
     chk.note("msgdrv: %s" % s)
+    if t == "thorough":
+        # two more concretisations of every case: contents are a function of (seed, case index), so the index is shifted
+        # (the shifted index is what a replay file records)
+        for k in (1, 2):
+            s2 = vlib.drive_cases(chk, drv, ["run"], [dict(c, _idx=i + 1000000 * k) for i, c in enumerate(cases)], [chk.seed], tag="msg%d" % k)
+            chk.note("msgdrv round %d: %s" % (k + 1, s2))
+    chk.cov["distinct_nontrivial"] = int(s.get("nontrivial", 0))   # abstract cases, counted once
     chk.cov["exhaustive"] = True
     chk.cov["traces_validated_against_impl"] = 0
     chk.cov["contract_verdicts"] = dict(want)
